@@ -14,6 +14,10 @@ CasesFor(ch) ==
     [] ch.k = "reject" -> {[op |-> "reject", base |-> ch.base, a |-> ch.a, b |-> b, why |-> w, sub |-> s] :
                              b \in {Rect(0, 0, 2, 2), Rect(1, -1, 3, 2)},
                              w \in {"subpixel", "pixelsize", "orientation", "crs", "nocrs"}, s \in {<<1, 0>>, <<0, 4>>, <<2, 3>>, <<0, -1>>, <<-4, 4>>}}
+    \* sub-pixel offsets (in 1/1024 pixel) between boxes that lie FAR apart (hundreds to tens of thousands of pixels): the offset is what decides,
+    \* not its size relative to the separation
+    [] ch.k = "rejectfar" -> {[op |-> "reject", base |-> ch.base, a |-> ch.a, b |-> Rect(f, 0 - f, 3, 2), why |-> "subpixel_far", sub |-> s] :
+                             f \in {300, 5000, 40000}, s \in {<<1, 0>>, <<0, 8>>, <<16, -256>>, <<512, 512>>, <<-3, 3>>}}
     \* every invertible relative linear map with entries in halves up to 2 (mirrors, rotations, shears, anisotropic scales), not the identity
     [] ch.k = "rejectlin" -> {[op |-> "reject", base |-> ch.base, a |-> ch.a, b |-> Rect(1, -1, 3, 2), why |-> "linear", sub |-> s, m |-> m] :
                              m \in {x \in LinMaps : ~SameGrid(x, <<0, 0>>)}, s \in {<<0, 0>>}}
@@ -27,7 +31,7 @@ CasesFor(ch) ==
 
 Chunks == UNION { {[op |-> "chunk", k |-> "pair", base |-> bs, a |-> a] : bs \in Bases, a \in Rects(-Lo, Hi, Sizes)},
                   {[op |-> "chunk", k |-> "triple", base |-> bs, a |-> a] : bs \in {"northup", "pythag"}, a \in Rects(TLo, THi, TSizes)},
-                  {[op |-> "chunk", k |-> kk, base |-> bs, a |-> a] : kk \in {"reject", "rejectlin", "snap", "enclosing"}, bs \in Bases, a \in {Rect(0, 0, 3, 2), Rect(-1, 2, 2, 3)}},
+                  {[op |-> "chunk", k |-> kk, base |-> bs, a |-> a] : kk \in {"reject", "rejectfar", "rejectlin", "snap", "enclosing"}, bs \in Bases, a \in {Rect(0, 0, 3, 2), Rect(-1, 2, 2, 3)}},
                   {[op |-> "chunk", k |-> "bbox", p |-> p] : p \in BBoxes} }
 VARIABLE c
 Init == c \in Chunks
